@@ -1,6 +1,8 @@
 package ir
 
 import (
+	"go/token"
+	"go/types"
 	"golang.org/x/tools/go/ssa"
 )
 
@@ -70,14 +72,17 @@ type TS struct {
 	Spec TSpec
 
 	summ    map[tsKey]Mask
+	summB   [2]map[tsKey]Mask // exit states at returns whose single boolean result is false / true (non-constant: both)
 	final   map[tsKey]bool
 	visited map[tsKey]bool
 	active  map[tsKey]bool
 	changed bool
+	// exit states of the last intra run, partitioned by the constant boolean result (see summB)
+	lastExitB [2]Mask
 }
 
 func NewTS(spec TSpec) *TS {
-	return &TS{Spec: spec, summ: map[tsKey]Mask{}, final: map[tsKey]bool{}}
+	return &TS{Spec: spec, summ: map[tsKey]Mask{}, summB: [2]map[tsKey]Mask{{}, {}}, final: map[tsKey]bool{}}
 }
 
 // Summary returns the set of states possible at the returns of fn when it is
@@ -114,7 +119,23 @@ func (ts *TS) compute(fn *ssa.Function, s int) Mask {
 		ts.summ[k] |= exit
 		ts.changed = true
 	}
+	for i := 0; i < 2; i++ {
+		if e := ts.lastExitB[i]; e|ts.summB[i][k] != ts.summB[i][k] {
+			ts.summB[i][k] |= e
+			ts.changed = true
+		}
+	}
 	return ts.summ[k]
+}
+
+// boolResult: fn has exactly one result, of boolean type.
+func boolResult(fn *ssa.Function) bool {
+	r := fn.Signature.Results()
+	if r.Len() != 1 {
+		return false
+	}
+	b, ok := r.At(0).Type().Underlying().(*types.Basic)
+	return ok && b.Kind() == types.Bool
 }
 
 // intra runs the forward analysis of one function from entry mask `in`.
@@ -134,8 +155,36 @@ func (ts *TS) intra(fn *ssa.Function, in Mask, check func(ins ssa.Instruction, m
 			}
 		}
 	}
+	isBool := boolResult(fn)
+	var exitB [2]Mask
+	// split: when the block ends in a branch on the boolean result of a call (and nothing after the call
+	// changes the state), the two successors get the callee's exit states for that result only
+	type splitInfo struct {
+		ok  bool
+		out [2]Mask // [false, true]
+		neg bool
+	}
+	splits := map[*ssa.BasicBlock]splitInfo{}
 	step := func(b *ssa.BasicBlock, cur Mask, final bool) (Mask, Mask) {
 		var exit Mask
+		var brCall *ssa.Call
+		neg := false
+		if len(b.Instrs) > 0 {
+			if iff, ok := b.Instrs[len(b.Instrs)-1].(*ssa.If); ok {
+				cond := iff.Cond
+				for {
+					if u, ok := cond.(*ssa.UnOp); ok && u.Op == token.NOT {
+						cond, neg = u.X, !neg
+						continue
+					}
+					break
+				}
+				if c, ok := cond.(*ssa.Call); ok && c.Block() == b {
+					brCall = c
+				}
+			}
+		}
+		var split splitInfo
 		for _, ins := range b.Instrs {
 			if final && check != nil {
 				check(ins, cur)
@@ -155,12 +204,39 @@ func (ts *TS) intra(fn *ssa.Function, in Mask, check func(ins ssa.Instruction, m
 			if ts.Spec.Instr != nil {
 				if tr := ts.Spec.Instr(ins); tr != nil {
 					cur = apply(tr, cur)
+					split.ok = false
 					continue
 				}
 			}
 			switch x := ins.(type) {
 			case *ssa.Call:
+				pre := cur
 				cur = ts.callEffect(x, cur, summary, enter, final)
+				if split.ok {
+					split.ok = false // a later call: the partition no longer describes the state at the branch
+				}
+				if x == brCall && ts.Spec.Callees != nil {
+					if cs := ts.Spec.Callees(x); len(cs) > 0 {
+						allBool := true
+						for _, cal := range cs {
+							if !boolResult(cal) {
+								allBool = false
+							}
+						}
+						if allBool {
+							split = splitInfo{ok: true, neg: neg}
+							for _, cal := range cs {
+								for st := 0; st < ts.Spec.N; st++ {
+									if pre.Has(st) {
+										summary(cal, st) // make sure the partitions are computed
+										split.out[0] |= ts.summB[0][tsKey{cal, st}]
+										split.out[1] |= ts.summB[1][tsKey{cal, st}]
+									}
+								}
+							}
+						}
+					}
+				}
 			case *ssa.RunDefers:
 				for i := len(defers) - 1; i >= 0; i-- {
 					d := defers[i]
@@ -182,10 +258,23 @@ func (ts *TS) intra(fn *ssa.Function, in Mask, check func(ins ssa.Instruction, m
 				}
 			case *ssa.Return:
 				exit |= cur
+				if isBool && len(x.Results) == 1 {
+					if k, isConst := ConstBool(x.Results[0]); isConst {
+						if k {
+							exitB[1] |= cur
+						} else {
+							exitB[0] |= cur
+						}
+					} else {
+						exitB[0] |= cur
+						exitB[1] |= cur
+					}
+				}
 			case *ssa.Panic:
 				cur = 0
 			}
 		}
+		splits[b] = split
 		return cur, exit
 	}
 	work := []int{0}
@@ -198,8 +287,20 @@ func (ts *TS) intra(fn *ssa.Function, in Mask, check func(ins ssa.Instruction, m
 		cur, _ := step(b, inb[bi], false)
 		for si, succ := range b.Succs {
 			out := cur
+			if sp := splits[b]; sp.ok && len(b.Succs) == 2 {
+				// Succs[0] is taken when the condition is true
+				truth := si == 0
+				if sp.neg {
+					truth = !truth
+				}
+				if truth {
+					out = sp.out[1]
+				} else {
+					out = sp.out[0]
+				}
+			}
 			if ts.Spec.Edge != nil {
-				out = apply(ts.Spec.Edge(b, si), cur)
+				out = apply(ts.Spec.Edge(b, si), out)
 			}
 			if out|inb[succ.Index] != inb[succ.Index] {
 				inb[succ.Index] |= out
@@ -211,10 +312,12 @@ func (ts *TS) intra(fn *ssa.Function, in Mask, check func(ins ssa.Instruction, m
 		}
 	}
 	var exit Mask
+	exitB = [2]Mask{}
 	for _, b := range fn.Blocks {
 		_, e := step(b, inb[b.Index], true)
 		exit |= e
 	}
+	ts.lastExitB = exitB
 	return exit
 }
 
